@@ -90,6 +90,24 @@ def operand(spec, x, rng):
     raise ValueError(kind)
 
 
+def make_key(x, st):
+    """index key of the requested kind; returns (key, the integer it denotes)"""
+    i, kt = int(st["i"]), st.get("kt", "int")
+    n = len(x.kcals) if x.is_list_monthly() else 0
+    if kt == "int64":
+        return np.int64(i), i
+    if kt == "int32":
+        return np.int32(i), i
+    if kt == "0d":
+        return np.array(i), i
+    if kt == "arange" and n and -n <= i < n:
+        return np.arange(-n, n)[i + n], i
+    if kt == "argmin" and n:
+        k = np.argmin(x.kcals)
+        return k, int(k)
+    return i, i
+
+
 def apply(x, st, y):
     o = st["op"]
     if o == "add":
@@ -115,7 +133,7 @@ def apply(x, st, y):
     if o == "div_num":
         return x / float(st["q"])
     if o == "index":
-        return x[int(st["i"])]
+        return x[make_key(x, st)[0]]
     if o == "slice":
         return x[int(st["a"]):int(st["b"])]
     if o == "month":
@@ -224,6 +242,8 @@ def run_seq(seq, rng):
                 res["steps"].append(r)
                 break
         bx, by = snapshot(x), snapshot(y)
+        if st["op"] == "index":
+            r["key"] = make_key(x, st)[1]
         try:
             with quiet():
                 z = apply(x, st, y)
